@@ -60,10 +60,12 @@ def jobs(tier):
     import ctparse.ctparse  # noqa
     C = sys.modules["ctparse.ctparse"]
     nw, nts = (2, 1) if tier == "quick" else (3, 2)
-    return [Job("C09.EMBED", HA, "ob_embed", timeout=3600, path_timeout=120, env={"VQ_NWORDS": str(nw), "VQ_NTS": str(nts)},
-                bounds="16 expressions x 0..2 inert words before x 0..2 after ({} inert words, inertness decided by the library's own patterns) x {} reference time(s) x latent on/off: same resolution, span = expression span shifted".format(nw, nts),
+    chunks = [(0, 100)] if tier == "quick" else [(0, 4), (4, 8), (8, 12), (12, 16)]
+    return [Job("C09.EMBED[{}..{}]".format(lo, hi - 1), HA, "ob_embed", timeout=5400, path_timeout=120,
+                env={"VQ_NWORDS": str(nw), "VQ_NTS": str(nts), "VQ_ELO": str(lo), "VQ_EHI": str(hi)},
+                bounds="expressions {}..{} of 16 x 0..2 inert words before x 0..2 after ({} inert words incl. a 12-letter one, inertness decided by the library's own patterns) x {} reference time(s) x latent on/off: same resolution, span = expression span shifted".format(lo, min(hi, 16) - 1, nw, nts),
                 functions=[fn_id(C.ctparse), fn_id(C._ctparse), fn_id(C._match_regex), fn_id(C._regex_stack)],
-                stubs=["parser runs untraced; pool indices symbolic (solver covers every combination)"], site="ctparse")]
+                stubs=["parser runs untraced; pool indices symbolic (solver covers every combination)"], site="ctparse") for lo, hi in chunks]
 
 
 def run(tier, t0, only=None):
